@@ -483,7 +483,14 @@ class Sizes:
         return LinS({v: 1})
 
     def size(self, obj, st):
-        """LinS of obj.size() for a symbolic object."""
+        """LinS of obj.size() for a symbolic object; a size() that is not understood becomes an opaque unknown (whatever compares
+        it ends without verdict) instead of aborting the analysis of the pass."""
+        try:
+            return self._size(obj, st)
+        except AnalysisError as e:
+            return LinS({('opaque', 'size(): ' + str(e)[:120]): 1})
+
+    def _size(self, obj, st):
         if obj[0] in ('call', 'mcall') or (obj[0] == 'new' and any(isinstance(a, tuple) and a and a[0] in ('call', 'mcall', 'name') for a in obj[2])):
             r = self.resolve(obj, st)
             if r != obj:
